@@ -43,6 +43,8 @@ CONSTANTS
   EdgeClearedOnReply,  \* BOOLEAN: wait-for edge removed when the reply is sent (F1 fixed)
   TokenedEdges,        \* BOOLEAN: a guard removes only the edge of ITS OWN ask (per-ask token). FALSE = deviation: the
                        \* callee-side guard of an abandoned (timed-out / cancelled) ask removes whatever edge its asker has now
+  ScopedCleanupStop,   \* BOOLEAN: the on_stop that runs after an on_run error is inside the actor's task-local scope like every
+                       \* other hook (FALSE = deviation: asks issued there are invisible to the deadlock detection)
   AskerGuard,          \* BOOLEAN: the asking future removes its own wait-for edge when it completes or is dropped
                        \* (FALSE = a deviation used to let TLC find distinguishing schedules: only the callee side clears)
   KilledFromSignal,    \* BOOLEAN: killed is set because a Terminate signal was received (FALSE = deviation: derived
@@ -314,14 +316,17 @@ OpStartEv(s, o) ==
   [e |-> "OpStart", op |-> o, own |-> op.own, kind |-> op.kind, h |-> op.h, a |-> op.a,
    m |-> op.m, d |-> IF op.dl < 0 THEN 0 ELSE op.dl - s.now, now |-> s.now]
 
+\* is the hook of actor `own` that is issuing an ask known to the deadlock detection (CURRENT_ACTOR scope)?
+Scoped(s, own) == own \in Actors /\ (ScopedCleanupStop \/ ~(s.A[own].pc = "Stop" /\ s.A[own].runErr))
+
 \* deadlock detection at the start of an ask issued inside a hook (actor_ref.rs:252-272)
 WouldDeadlock(s, own, callee) ==
-  DeadlockDetection /\ own \in Actors /\ (own = callee \/ HasPath(s.wf, callee, own))
+  DeadlockDetection /\ own \in Actors /\ Scoped(s, own) /\ (own = callee \/ HasPath(s.wf, callee, own))
 
 \* first poll of a freshly created op (shared by clients and hooks); never called on a deadlock
 FirstPoll(s, o) ==
   LET op == s.O[o]
-      s0 == IF op.kind \in AskKinds /\ op.own \in Actors
+      s0 == IF op.kind \in AskKinds /\ op.own \in Actors /\ Scoped(s, op.own)
               THEN [s EXCEPT !.wf[op.own] = op.a] ELSE s
       r  == IF op.kind = "kill" THEN KillNow(s0, o) ELSE PollOp(s0, o)
   IN  R(r.s, << OpStartEv(s, o) >> \o r.evs)
